@@ -48,7 +48,7 @@ class World:
         m = self.load(crate)
         return [f for n, f in m.fns.items() if re.search(name_re, n)]
 
-    def engine(self, primary='marginfi', extra=('typecrate',), opaque=(), merge=False, max_paths=20000, std_opaque=True):
+    def engine(self, primary='marginfi', extra=('typecrate', 'drift'), opaque=(), merge=False, max_paths=20000, std_opaque=True):
         mirs = [self.load(primary)] + [self.load(x) for x in extra if x != primary]
         eng = Engine(mirs[0], mirs[1:], opaque_patterns=(STD_OPAQUE if std_opaque else []) + list(opaque), max_paths=max_paths)
         eng.merge = merge
@@ -213,11 +213,16 @@ class Report:
         for i, c in enumerate(viol):
             path = f"{VERIF}/evidence/replays/{self.pid}-{re.sub(r'[^A-Za-z0-9_.-]+', '_', c['ob'] + '-' + c['role'])[:80]}.json"
             rep = {'property': self.pid, 'obligation': c['ob'], 'role': c['role'], 'goal': c['label'], 'model': c['model']}
-            fn = replayers.get(c.get('replay')) if c.get('replay') else None
+            rp = c.get('replay')
+            fn = None; spec = None
+            if isinstance(rp, dict):
+                fn = replayers.get(rp.get('kind')); spec = rp
+            elif rp:
+                fn = replayers.get(rp)
             status = 'encoding-level'
             if fn is not None:
                 try:
-                    ok, detail = fn(c['model'])
+                    ok, detail = fn(c['model'], spec) if spec is not None else fn(c['model'])
                     rep['native_replay'] = detail
                     status = 'reproduced' if ok else 'not-reproduced'
                 except Exception as e:
@@ -390,3 +395,50 @@ def calls(r, pat):
 def call_index(r, pat):
     rx = re.compile(pat)
     return [i for i, e in enumerate(r['events']) if e[0] == 'call' and rx.search(e[1])]
+
+
+# ---------------------------------------------------------------- concrete evaluation of encodings, native replay
+def free_consts(e, acc=None):
+    acc = {} if acc is None else acc
+    seen = set(); stack = [e]
+    while stack:
+        x = stack.pop()
+        if x.get_id() in seen: continue
+        seen.add(x.get_id())
+        if z3.is_const(x) and x.decl().kind() == z3.Z3_OP_UNINTERPRETED:
+            acc[x.decl().name()] = x
+        else:
+            stack.extend(x.children())
+    return acc
+
+
+def subst_eval(e, env):
+    """evaluate z3 expr under env {name: int|bool}; returns python int/bool or None when not concrete"""
+    fc = free_consts(e)
+    subs = []
+    for n, c in fc.items():
+        if n not in env: return None
+        v = env[n]
+        subs.append((c, z3.BoolVal(v) if z3.is_bool(c) else z3.IntVal(int(v))))
+    r = z3.simplify(z3.substitute(e, *subs))
+    if z3.is_int_value(r): return r.as_long()
+    if z3.is_true(r): return True
+    if z3.is_false(r): return False
+    return None
+
+
+REPLAY_BIN = CACHE + '/replay-target/debug/replay'
+
+
+def native(reqs):
+    """run the native replay binary on a list of requests"""
+    p = subprocess.run([REPLAY_BIN], input=json.dumps(reqs), capture_output=True, text=True, timeout=600)
+    if p.returncode != 0:
+        raise RuntimeError('replay binary failed: ' + p.stderr[-800:])
+    return json.loads(p.stdout.strip().splitlines()[-1])   # msg!/Error::log lines precede the JSON answer
+
+
+def ensure_replay():
+    r = subprocess.run([VERIF + '/tools/build_replay.sh'], capture_output=True, text=True)
+    if r.returncode != 0:
+        print(r.stdout[-3000:], r.stderr[-2000:]); raise SystemExit(2)
